@@ -7,6 +7,8 @@ use serde_json::{json, Value};
 pub mod common;
 pub mod c01;
 pub mod c02;
+pub mod c03;
+pub mod c04;
 pub mod c05;
 pub mod c06;
 pub mod c07;
@@ -65,6 +67,8 @@ impl Part {
 }
 
 pub struct Check {
+    /// additionally run the same parts in the wrapping-arithmetic build (child process)
+    pub also_rel: bool,
     pub property: &'static str,
     pub level: &'static str,
     pub rule: String,
@@ -77,6 +81,8 @@ pub fn scenario_by_name(name: &str, params: &Value) -> Scenario {
     match prop {
         "C01" => c01::scenario(name, params),
         "C02" => c02::scenario(name, params),
+        "C03" => c03::scenario(name, params),
+        "C04" => c04::scenario(name, params),
         "C05" => c05::scenario(name, params),
         "C06" => c06::scenario(name, params),
         "C07" => c07::scenario(name, params),
@@ -101,6 +107,8 @@ pub fn check_by_id(id: &str, tier: Tier) -> Check {
     match id {
         "C01" => c01::check(tier),
         "C02" => c02::check(tier),
+        "C03" => c03::check(tier),
+        "C04" => c04::check(tier),
         "C05" => c05::check(tier),
         "C06" => c06::check(tier),
         "C07" => c07::check(tier),
@@ -123,6 +131,14 @@ pub fn check_by_id(id: &str, tier: Tier) -> Check {
 
 pub fn run_check(id: &str, tier: Tier) -> i32 {
     let chk = check_by_id(id, tier);
+    let is_child = std::env::var("PV_CHILD").is_ok();
+    // watchdog: a hang in the machinery is a machinery error, never a verdict
+    let budget: u64 = chk.parts.iter().map(|p| p.wall_s).sum::<u64>() * 2 + 300;
+    std::thread::spawn(move || {
+        std::thread::sleep(std::time::Duration::from_secs(budget));
+        eprintln!("MACHINERY: watchdog: check did not finish within {} s", budget);
+        std::process::exit(2);
+    });
     let mut total = Stats::default();
     let mut parts_json = vec![];
     let t0 = std::time::Instant::now();
@@ -156,6 +172,47 @@ pub fn run_check(id: &str, tier: Tier) -> i32 {
         }));
         total.merge(st);
     }
+    // the same parts in the build without overflow checks / debug assertions
+    let mut rel_summary = json!(null);
+    let mut child_code = 0;
+    if chk.also_rel && !is_child {
+        match std::env::var("PV_REL_BIN") {
+            Ok(bin) => {
+                let out = std::process::Command::new(&bin)
+                    .args(["check", id, "--tier", tier.name()])
+                    .env("PV_CHILD", "1")
+                    .output();
+                match out {
+                    Ok(o) => {
+                        let text = String::from_utf8_lossy(&o.stdout).to_string();
+                        for l in text.lines() {
+                            if let Some(j) = l.strip_prefix("CHILD-SUMMARY ") {
+                                rel_summary = serde_json::from_str(j).unwrap_or(json!(null));
+                            } else if l.starts_with("VIOLATION") || l.starts_with("  ") {
+                                println!("{}", l);
+                            } else if l.starts_with("KNOWN-FINDING") {
+                                println!("{} [wrapping-arithmetic build]", l);
+                            }
+                        }
+                        eprint!("{}", String::from_utf8_lossy(&o.stderr).replace("[C", "[rel C"));
+                        child_code = o.status.code().unwrap_or(2);
+                        if rel_summary.is_null() || child_code >= 2 {
+                            eprintln!("MACHINERY: the wrapping-arithmetic child run failed (exit {:?})", o.status);
+                            std::process::exit(2);
+                        }
+                    }
+                    Err(e) => {
+                        eprintln!("MACHINERY: cannot run {}: {}", bin, e);
+                        std::process::exit(2);
+                    }
+                }
+            }
+            Err(_) => {
+                eprintln!("MACHINERY: PV_REL_BIN is not set (run through ./check)");
+                std::process::exit(2);
+            }
+        }
+    }
     total.wall = t0.elapsed();
     let outcome = triage(&total.violations);
     let exhaustive = !total.capped && outcome.unknown.is_empty() && outcome.known.is_empty();
@@ -167,8 +224,21 @@ pub fn run_check(id: &str, tier: Tier) -> i32 {
         bounds: json!({ "parts": parts_json }),
         assumptions: chk.assumptions.clone(),
         exhaustive,
-        extra: json!({}),
+        extra: json!({"wrapping_arithmetic_build": rel_summary, "build": if is_child { "rel (overflow checks off)" } else { "chk (overflow checks on)" }}),
     };
-    write_evidence(&meta, &total, &outcome);
-    verdict(chk.property, &outcome)
+    if is_child {
+        println!(
+            "CHILD-SUMMARY {}",
+            json!({
+                "executions": total.executions, "transitions": total.transitions,
+                "evaluations": total.evaluations, "distinct_traces": total.traces.len(),
+                "capped": total.capped, "violations": outcome.unknown.len(),
+                "known_findings_seen": outcome.known.iter().map(|(f, _)| f.id.clone()).collect::<Vec<_>>(),
+            })
+        );
+    } else {
+        write_evidence(&meta, &total, &outcome);
+    }
+    let code = verdict(chk.property, &outcome);
+    code.max(child_code)
 }
